@@ -8,7 +8,7 @@
 # (-fno-sanitize-recover) are fed a malformed stream (mutations of generated documents, repository corpus and
 # fuzz seeds with a PDF token dictionary and structure-aware edits); every run must end in a documented way.
 import os, re, resource, subprocess, time
-import common, filecheck, pdfgen, c04guards
+import common, filecheck, pdfgen, c04guards, c04json
 from common import hexs
 from pdfgen import D, N, Ref
 
@@ -123,7 +123,41 @@ def structured(rng):
     d = pdfgen.page_doc(1)
     d.objects[1][b"Y"] = d.add(Stream({b"Type": N("ObjStm"), b"N": 3, b"First": 10, b"Extends": Ref(max(d.objects) + 1)}, b"7 0 8 1 9 2 <<>> 1 2"))
     docs.append(pdfgen.write_classic(d)[0])
+    # named inputs (the name is part of the violation signature).  png-row-wrap: predictor parameters for which a row has
+    # exactly 2^32 - 1 bytes - Pl_PNGFilter allocates its row buffers with the uint32_t sum bytes_per_row + 1 = 0 (D-C04-png-row-wrap)
+    structured.names = {}
+    import zlib
+    d = pdfgen.page_doc(1)
+    d.objects[1][b"X"] = d.add(Stream({b"Filter": N("FlateDecode"), b"DecodeParms": {b"Predictor": 12, b"Columns": 1431655765, b"Colors": 3, b"BitsPerComponent": 8}},
+                                      zlib.compress(bytes(range(64)))))
+    structured.names[len(docs)] = "png-row-wrap"
+    docs.append(pdfgen.write_classic(d)[0])
+    # objstm-negative-first: /First < 0 in an object stream whose members are referenced (resolve() turns the std::logic_error of
+    # is::OffsetBuffer into a warning: must stay a warning, exit 3)
+    docs.append(objstm_doc(-5))
+    structured.names[len(docs) - 1] = "objstm-negative-first"
     return docs
+
+
+def objstm_doc(first, header=b"5 0 6 20 ", members=b"<< /A 1 >>          << /B 2 >>"):
+    """a file (cross-reference stream) whose objects 5 and 6 live in the object stream 4 with the given /First"""
+    pdf = bytearray(b"%PDF-1.5\n%\xbf\xf7\xa2\xfe\n")
+    off = {}
+
+    def obj(num, body):
+        off[num] = len(pdf)
+        pdf.extend(b"%d 0 obj\n" % num + body + b"\nendobj\n")
+    obj(1, b"<< /Type /Catalog /Pages 2 0 R /X 5 0 R /Y 6 0 R >>")
+    obj(2, b"<< /Type /Pages /Kids [3 0 R] /Count 1 >>")
+    obj(3, b"<< /Type /Page /Parent 2 0 R /MediaBox [0 0 10 10] /Resources << >> >>")
+    data = header + members
+    obj(4, b"<< /Type /ObjStm /N 2 /First %d /Length %d >>\nstream\n" % (first, len(data)) + data + b"\nendstream")
+    x = len(pdf)
+    ents = [bytes([0, 0, 0, 255])] + [bytes([1]) + off[i].to_bytes(2, "big") + bytes([0]) for i in (1, 2, 3, 4)]
+    ents += [bytes([2, 0, 4, 0]), bytes([2, 0, 4, 1]), bytes([1]) + x.to_bytes(2, "big") + bytes([0])]
+    d = b"".join(ents)
+    pdf.extend(b"7 0 obj\n<< /Type /XRef /Size 8 /Root 1 0 R /W [1 2 1] /Length %d >>\nstream\n" % len(d) + d + b"\nendstream\nendobj\nstartxref\n%d\n%%%%EOF\n" % x)
+    return bytes(pdf)
 
 
 def classify(rc, out, err, dt, budget):
@@ -143,6 +177,12 @@ def classify(rc, out, err, dt, budget):
 def run(chk):
     rng = chk.rng
     quick = chk.tier == "quick"
+    phases = chk.cov.setdefault("phase_seconds", {})
+    t_phase = [time.time()]
+
+    def phase(name):
+        phases[name] = round(time.time() - t_phase[0], 1)
+        t_phase[0] = time.time()
     wd = common.workdir("C04")
     bdir = common.build_repo("asan")
     qpdf_asan = os.path.join(bdir, "qpdf", "qpdf")
@@ -152,6 +192,7 @@ def run(chk):
                        "streams; predictor parameters at the limits) x entry points {--check, rewrite, --qdf, --linearize, --json-output, --json-input, "
                        "--show-pages, --list-attachments} under ASan+UBSan; non-trivial = input that makes qpdf warn or fail, distinct by input bytes")
     env = {"ASAN_OPTIONS": "detect_leaks=1:abort_on_error=0:exitcode=99:allocator_may_return_null=1", "UBSAN_OPTIONS": "print_stacktrace=1:halt_on_error=1:exitcode=98"}
+    phase("builds")
     seeds = []
     for name, data, doc in filecheck.gen_docs(rng, 4 if quick else 20):
         seeds.append(data)
@@ -174,9 +215,12 @@ def run(chk):
              ["--decode-level=all", "--stream-data=uncompress"], ["--remove-unreferenced-resources=yes", "--pages", ".", "1-z", "--"],
              ["--optimize-images"], ["--externalize-inline-images", "--optimize-images", "--oi-min-area=0"], ["--flatten-annotations=all", "--generate-appearances"]]
     jobs = []
+    name_of = {}
     for i, data in enumerate(inputs):
         p = os.path.join(wd, "in%d.pdf" % i)
         open(p, "wb").write(data)
+        if i in getattr(structured, "names", {}):
+            name_of[p] = structured.names[i]
         nstruct = getattr(structured, "count", 0)
         for m in (modes if i < nstruct else [modes[0]] + rng.sample(modes[1:], 2 if quick else 4)):
             jobs.append((p, m, len(data)))
@@ -211,11 +255,13 @@ def run(chk):
             if cls2 != "ok":
                 chk.violation({"kind": "property-fails-on-implementation", "why": "qpdf did not end in a documented way: " + cls2, "input": p,
                                "input_hex_prefix": open(p, "rb").read()[:200].hex(), "argv": ["qpdf"] + m, "exit": rc2,
-                               "stderr_tail": se2.decode("latin-1")[-1200:]}, signature="c04:%s:%s" % (cls2, " ".join(m)))
+                               "stderr_tail": se2.decode("latin-1")[-1200:]},
+                              signature="c04:%s:%s" % (cls2, " ".join(m)) + (":" + name_of[p] if p in name_of else ""))
     chk.count("cli-malformed-asan", len(jobs), nontriv, samples=[{"input": os.path.basename(jobs[0][0]), "mode": jobs[0][1]}])
     chk.cov["parts"]["cli-malformed-asan"]["outcome_classes"] = kinds
     chk.cov["parts"]["cli-malformed-asan"]["explanation"] = "testing, not proof: sanitizer verdicts and budgets on a sampled malformed stream"
 
+    phase("cli-malformed-asan")
     # ---- in-process entry points under ASan: filters with malformed data (same cases as C15's malformed part)
     lines = []
     for _ in range(1500 if quick else 40000):
@@ -263,6 +309,7 @@ def run(chk):
         nlim.add((f, lim, csize))
     chk.count("decoder-memory-limits", len(llines), nlim, samples=[{"case": llines[0][:80]}])
 
+    phase("filters-and-limits")
     # ---- linearization parameters of real linearized files replaced, in place and without changing the file length, by values
     # at and beyond the ends of their ranges (negative, zero, 2^31, 2^32, 2^40 ...): --check / --check-linearization /
     # --show-linearization read hint tables at offsets computed from them
@@ -321,14 +368,27 @@ def run(chk):
     chk.count("linearization-parameters-asan", len(ljobs), lnon, samples=[{"input": os.path.basename(ljobs[0][0]), "mode": ljobs[0][1]}] if ljobs else [])
     chk.cov["parts"]["linearization-parameters-asan"]["outcome_classes"] = lk
 
+    phase("linearization-parameters")
     # ---- guard logic: random hostile graphs, real qpdf / driver vs the extracted model of Sys/Guards.v
     diffs, fails = c04guards.run_part(chk, quick)
-    c04guards.report(chk, diffs, fails)
+    phase("guards")
+    # ---- qpdf JSON import: hostile JSON documents through createFromJSON / updateFromJSON (in process, exception type) and the
+    #      CLI, against the extracted model of the reactor's replaceObject guard and of importJSON's exception translation
+    jdiffs, jfails = c04json.run_part(chk, quick, env)
+    phase("json-import")
+    c04guards.report(chk, diffs + jdiffs, fails + jfails)
 
 
 def replay(chk, rep):
     import json
     print(json.dumps(rep, indent=1)[:3000])
+    # a recorded JSON import case: the same text through createFromJSON / updateFromJSON in process (exception type) once more
+    if rep.get("case_kind") == "json" and rep.get("input") and os.path.exists(rep["input"]) and rep["input"].endswith(".json"):
+        mode = "u" if "/u" in (rep.get("tag") or "") else "c"
+        line = "c4json %s %s%s" % (mode, open(rep["input"], "rb").read().hex() or "-", " " + c04json.base_pdf().hex() if mode == "u" else "")
+        print("replayed (%s): %s" % ("updateFromJSON on the two-page base document" if mode == "u" else "createFromJSON",
+                                     c04guards._drv(common.build_drv(), [line], 60)))
+        return 0
     # a recorded guard-part case: run the same command again on the recorded input, with the same caps
     if rep.get("part") == "guards" and rep.get("input") and rep.get("argv") and os.path.exists(rep["input"]):
         rc, so, se, cpu, rss, wall = c04guards.run_qpdf_capped(common.QPDF, rep["argv"][1:], rep["input"])
